@@ -160,7 +160,8 @@ func otherOp(op kmip.Operation) *gen.Op {
 	return gen.OpByCode(kmip.OperationGet)
 }
 
-const serverMessage = "server says no: object 42"
+// the server's message is free text: it may well contain percent signs
+const serverMessage = "server says no: object 42 is 100% gone (LIKE 'prod-%', key%2Fprod%2F01, %s %d %v)"
 
 func respond(r *core.Rand, s shape, reqOp kmip.Operation, req *kmip.RequestMessage) *kmip.ResponseMessage {
 	g := gen.New(r, gen.Mode{Minor: 4, Gate: true, Text: gen.TextASCII, TextDates: true, NamedEnums: true}, refmodel.Gates())
@@ -377,6 +378,29 @@ func batchCase(c *core.Ctx, r *core.Rand, i int) {
 		c.Violation("C12:batch-item-count", fmt.Sprintf("Batch returned %d items for %d requests (%s)", len(res), n, label), det)
 		return
 	}
+	// the aggregate view: a failed item anywhere in the batch is surfaced by Unwrap, with the server's words
+	anyFailed := false
+	for k := range kinds {
+		if k < len(res) && kinds[k] == 1 {
+			anyFailed = true
+		}
+	}
+	if anyFailed {
+		var uerr error
+		if p, pv, st := core.Guard(func() { _, uerr = res.Unwrap() }); p {
+			c.Violation(core.PanicSig(pv, st), fmt.Sprintf("Unwrap panicked: %v (%s)", pv, label), map[string]any{"stack": st})
+			return
+		}
+		c.Count("batch_unwraps_with_failed_item", 1)
+		if uerr == nil {
+			c.Violation("C12:failed-item-not-surfaced:Unwrap", fmt.Sprintf("BatchResult.Unwrap() reports no error although an item of the batch failed (%s)", label), det)
+			return
+		}
+		if txt := uerr.Error(); !(strings.Contains(txt, "OperationFailed") && strings.Contains(txt, "ItemNotFound") && strings.Contains(txt, serverMessage)) {
+			c.Violation("C12:error-lacks-server-info:Unwrap", fmt.Sprintf("Unwrap() error %q lacks the failed item's status, reason or message (%s)", txt, label), det)
+			return
+		}
+	}
 	for k := range res {
 		c.Count("batch_items_inspected", 1)
 		if res[k].Err() != nil {
@@ -487,7 +511,7 @@ func Spec() *core.Spec {
 		Rule: "for each of the 26 fluent request builders plus Client.Request, Client.Batch, the version-discovery exchange of Dial and Client.Signer: a scripted server answers from the complete product " +
 			"{header batch count 0,1,2} x {items 0,1,2} x {operation: requested, other registered, unknown, absent} x {status: Success, Failed, Pending, Undone, unknown} x {reason: none, registered, unknown} x {payload: absent, right, another operation's, opaque} (1443 shapes per entry point), " +
 			"plus seeded random well-formed responses with extensions and async values; plus every batch of 2, 3 and 4 requests answered item by item from {right, failed, pending, success with another operation's payload, success without payload, success answering another operation} (each item judged at its position); every (value, error) outcome is inspected under a panic monitor. distinct = distinct (entry point, response shape)",
-		Required: []string{"exchanges", "calls_succeeded", "calls_failed", "failed_item_errors_inspected", "negotiations", "signer_calls", "batch_exchanges", "batch_items_inspected"},
+		Required: []string{"exchanges", "calls_succeeded", "calls_failed", "failed_item_errors_inspected", "negotiations", "signer_calls", "batch_exchanges", "batch_items_inspected", "batch_unwraps_with_failed_item"},
 		Families: []core.Family{
 			{Name: "shapes", Exhaustive: true, N: func(string) int { return len(bs) * nShapes }, Run: func(c *core.Ctx, r *core.Rand, i int) {
 				b := bs[i%len(bs)]
